@@ -381,6 +381,7 @@ func runC12(c *Ctx) {
 	c12Width(c)
 	c12Errflow(c)
 	c12Cols(c)
+	c12RowsFresh(c)
 	// bound arguments and DSN cache options are part of C12's quantifier: rows are the library's result only if the
 	// executed query is the bound copy of an unmodified template and the cache belongs to this one index
 	if c.a.ReplacePH != nil {
@@ -397,8 +398,10 @@ func c12Width(c *Ctx) {
 		if typeIs(p.Type(), pkgRoot, "Result") {
 			result = p
 		}
-		if _, ok := p.Type().Underlying().(*types.Slice); ok {
-			groupBy = p
+		if sl, ok := p.Type().Underlying().(*types.Slice); ok {
+			if b, ok := sl.Elem().Underlying().(*types.Basic); ok && b.Kind() == types.String {
+				groupBy = p
+			}
 		}
 	}
 	if result == nil || groupBy == nil {
@@ -502,8 +505,10 @@ func c12Cols(c *Ctx) {
 	fn := c.a.NewRows
 	var groupBy ssa.Value
 	for _, p := range fn.Params {
-		if _, ok := p.Type().Underlying().(*types.Slice); ok {
-			groupBy = p
+		if sl, ok := p.Type().Underlying().(*types.Slice); ok {
+			if b, ok := sl.Elem().Underlying().(*types.Basic); ok && b.Kind() == types.String {
+				groupBy = p
+			}
 		}
 	}
 	okCols := false
@@ -764,4 +769,60 @@ func numInputRule(c *Ctx, rule string) {
 	}
 	c.r.check(okRet && okInit && okSt, rule, name, "highest placeholder number: running maximum over every node, starting at 0",
 		"the value compared with the number of arguments is not the highest placeholder number ("+why+"): with gaps or repeats in the numbering too few arguments pass the arity test and a placeholder stays unbound", site)
+}
+
+// c12RowsFresh: the row storage of a result set is created for that result set. Every value stored into the slice-of-rows
+// field of the rows type is fresh (a literal, make, or an append chain that starts from a fresh or nil slice) — never a
+// buffer that outlives the call (a field of the connection or statement, a parameter bound to one): database/sql allows
+// a second query on the same driver connection object while the rows of the first are still being read (the file
+// connection is shared by all pool slots; sql.Tx), so recycled storage lets a later query overwrite rows an earlier
+// reader has not fetched yet.
+func c12RowsFresh(c *Ctx) {
+	const rule = "C12.rowsfresh"
+	rowsT := c.w.namedType(pkgDriver, "rows")
+	if rowsT == nil {
+		c.r.undecided(rule, "<anchor>", "rows type not found")
+		return
+	}
+	var fld *types.Var
+	if st, ok := rowsT.Underlying().(*types.Struct); ok {
+		for i := 0; i < st.NumFields(); i++ {
+			if sl, ok := st.Field(i).Type().Underlying().(*types.Slice); ok {
+				if _, isStruct := sl.Elem().Underlying().(*types.Struct); isStruct {
+					fld = st.Field(i)
+				}
+			}
+		}
+	}
+	if fld == nil {
+		c.r.undecided(rule, "<anchor>", "the rows type has no slice-of-row field")
+		return
+	}
+	fr := newFresh(c)
+	n := 0
+	for _, fn := range c.w.ModFuncs {
+		if c.w.pkgPathOf(fn) != pkgDriver {
+			continue
+		}
+		allInstrs(fn, func(i ssa.Instruction) {
+			st, ok := i.(*ssa.Store)
+			if !ok {
+				return
+			}
+			fa, ok := st.Addr.(*ssa.FieldAddr)
+			if !ok || fieldOf(fa.X.Type(), fa.Field) != fld {
+				return
+			}
+			n++
+			key := fmt.Sprintf("%s: store rows.%s#%d", safeFname(fn), fld.Name(), n)
+			if isNilConst(st.Val) || fr.level(st.Val) >= shallow {
+				c.r.ok(rule, key, "row storage is created for this result", c.w.ipos(st))
+			} else {
+				c.r.bad(rule, key, "the rows of a result are kept in storage that was not created for this result (a recycled buffer, a field, a caller's slice): a later query on the same connection can overwrite rows that an earlier reader has not fetched yet", []string{c.w.ipos(st)})
+			}
+		})
+	}
+	if n == 0 {
+		c.r.undecided(rule, "<vacuity>", "no store to the row list of the rows type found")
+	}
 }
